@@ -33,6 +33,7 @@ class DefaultsShapeH(Harness):
                  ("puan.ndarray", "variable_ndarray.construct")]
     numpy_mode = "sym"
     rs_model = True
+    memo_fields = ("_ge_polyhedron", "_leafs")      # per-instance memos, not part of the configurator's definition (__getstate__)
 
     def cases(self):
         return [{"cfg": i, "sign": s} for i in CFG_IDS for s in (1, -1)]
